@@ -72,6 +72,9 @@ CO_Tree::CO_Tree(Iterator i, const dimension_type n) {
   stack[0].second = 3;
   ++stack_first_empty;
 
+  // The destructor is not run if an element copy throws:
+  // release what has been built so far.
+  try {
   while (stack_first_empty != 0) {
 
     // Implement
@@ -115,8 +118,9 @@ CO_Tree::CO_Tree(Iterator i, const dimension_type n) {
     else {
       if (top_n == 1) {
         PPL_ASSERT(root.index() == unused_index);
-        root.index() = i.index();
+        // Mark the node as used only once its data has been constructed.
         new(&(*root)) data_type(*i);
+        root.index() = i.index();
         ++i;
         --stack_first_empty;
       }
@@ -132,6 +136,11 @@ CO_Tree::CO_Tree(Iterator i, const dimension_type n) {
         stack_first_empty += 4;
       }
     }
+  }
+  }
+  catch (...) {
+    destroy();
+    throw;
   }
   size_ = n;
   PPL_ASSERT(OK());
